@@ -479,10 +479,32 @@ def SStr.len (s : SStr) : Nat × SStr :=
 def SStr.seekEnd (s : SStr) (n : Nat) : SStr :=
   { SStr.traverse (s.len.1 - n + 1) (s.len.2.bseek 0) 0 (s.len.1 - n) with tell := s.len.1 - n }
 
+/-- the line ends in CR or LF (`ret[-1] in '\r\n'`) -/
+def endsCRLF (l : List Char) : Bool :=
+  match l.getLast? with
+  | some c => c = '\r' || c = '\n'
+  | none => false
+
+/-- one `self.buffer.readline().decode('utf-8')`: a line of the codec reader, which ends at EVERY
+    `str.splitlines` boundary (also VT, FF, FS, GS, RS, NEL, LS, PS); `_tell` is not touched -/
+def SStr.codecLine (s : SStr) : List Char × SStr :=
+  ((s.rd.readline s.st).1, { s with st := (s.rd.readline s.st).2.1, rd := (s.rd.readline s.st).2.2 })
+
+/-- the loop of `readline()` (after the fix):
+    `while ret and ret[-1] not in '\r\n': more = buffer.readline().decode(); if not more: break; ret += more` -/
+def SStr.rlJoin : Nat → List Char → SStr → List Char × SStr
+  | 0, ret, s => (ret, s)
+  | fuel + 1, ret, s =>
+    if ret.isEmpty || endsCRLF ret then (ret, s)
+    else if s.codecLine.1.isEmpty then (ret, s.codecLine.2)
+    else SStr.rlJoin fuel (ret ++ s.codecLine.1) s.codecLine.2
+
+/-- `readline()` (after the fix): codec lines are joined until one ends in CR / LF (or nothing is left), then
+    `self._tell = self.tell() + len(ret)`.  Every round of the loop consumes a character: `fuel` suffices. -/
 def SStr.readline (s : SStr) : List Char × SStr :=
-  ((s.rd.readline s.st).1,
-   { s with st := (s.rd.readline s.st).2.1, rd := (s.rd.readline s.st).2.2,
-            tell := s.tell + (s.rd.readline s.st).1.length })
+  ((SStr.rlJoin (s.st.data.length + 2) s.codecLine.1 s.codecLine.2).1,
+   { (SStr.rlJoin (s.st.data.length + 2) s.codecLine.1 s.codecLine.2).2 with
+       tell := s.tell + (SStr.rlJoin (s.st.data.length + 2) s.codecLine.1 s.codecLine.2).1.length })
 
 /-- `readlines()`: `StreamRecoder.readlines` = everything, re-encoded, `bytes.splitlines` -/
 def SStr.readlines (s : SStr) : List (List Char) × SStr :=
@@ -546,8 +568,9 @@ structure LineSem (α : Type) where
 def bytesSem : LineSem Byte := ⟨takeLine isNL, splitLines isNL, splitLines isNL⟩
 /-- io.StringIO(newline=''): lines end at LF, CR, CRLF -/
 def textSem : LineSem Char := ⟨firstLine false, splitL false, splitL false⟩
-/-- what SpooledStringIO implements: `readline` / iteration cut at every `str.splitlines` boundary
-    (they go through `codecs.StreamReader.readline`), `readlines` only at LF, CR, CRLF -/
+/-- what the codec reader ALONE would give (and SpooledStringIO gave before the fix): `readline` / iteration cut at
+    every `str.splitlines` boundary (`codecs.StreamReader.readline`), `readlines` only at LF, CR, CRLF.  Kept to state
+    that the joining loop of `SStr.readline` is needed (`C18.codec_line_alone_is_not_enough`). -/
 def codecSem : LineSem Char := ⟨firstLine true, splitL false, splitL true⟩
 
 def Spec.next (sem : LineSem α) (f : File α) : Out α × File α :=
@@ -611,38 +634,7 @@ def okS (f : File Char) : Op Char → Bool
 
 def validS (f : File Char) : List (Op Char) → Bool
   | [] => true
-  | op :: ops => okS f op && validS (Spec.step codecSem f op).2 ops
-
-/-- no `str.splitlines` boundary other than CR / LF occurs -/
-def noExotic (l : List Char) : Bool := l.all (fun c => !isExotic c)
-
-/-- line-cutting operations are applied only to texts without VT, FF, FS, GS, RS, NEL, LS, PS -/
-def plainOp (f : File Char) : Op Char → Bool
-  | .readline => noExotic f.data
-  | .readlineN _ => noExotic f.data
-  | .next => noExotic f.data
-  | .list => noExotic f.data
-  | .drain => noExotic f.data
-  | _ => true
-
-def plainS (f : File Char) : List (Op Char) → Bool
-  | [] => true
-  | op :: ops => plainOp f op && plainS (Spec.step codecSem f op).2 ops
-
-/-- tighter than `plainOp`: only what a line-cutting operation actually reads must be free of the exotic
-    boundaries — the line io.StringIO would return (readline / next), the unread rest (iteration to the end);
-    exotic characters elsewhere in the text (before the position, after the line) do not matter -/
-def plainOpT (f : File Char) : Op Char → Bool
-  | .readline => noExotic (firstLine false f.rest)
-  | .readlineN _ => noExotic (firstLine false f.rest)
-  | .next => noExotic (firstLine false f.rest)
-  | .list => noExotic f.rest
-  | .drain => noExotic f.rest
-  | _ => true
-
-def plainT (f : File Char) : List (Op Char) → Bool
-  | [] => true
-  | op :: ops => plainOpT f op && plainT (Spec.step codecSem f op).2 ops
+  | op :: ops => okS f op && validS (Spec.step textSem f op).2 ops
 
 /-! ## 6. MultiFileReader -/
 
